@@ -54,7 +54,9 @@ class CHECK(Check):
         nrand = 1500 if tier == "quick" else 40000
         for _ in range(nrand):
             n = rng.randint(2, 11)
-            elems = [[rng.choice([0, 0, 1, 1, 2, 3]), [rng.choice([1, 2]), rng.choice([7, 7, None]), None]] for _ in range(n)]
+            # abstract value 6 is the NaN singleton (math.nan): members holding it and filters asking for it use the SAME object,
+            # and it still equals nothing (nan != nan) -- an identity shortcut would wrongly match it
+            elems = [[rng.choice([0, 0, 1, 1, 2, 3]), [rng.choice([1, 2]), rng.choice([7, 7, None, 6]), None]] for _ in range(n)]
             l = [0]
             ops = []
             pool = list(range(n))
@@ -68,8 +70,8 @@ class CHECK(Check):
                     op = [4, rng.choice(l), 0]
                     l = ref_apply(l, op)
                 else:
-                    kw = rng.choice([[], [[0, rng.choice([1, 2, None])]], [[0, rng.choice([1, 2])], [1, rng.choice([7, None, 8])]],
-                                     [[0, rng.choice([None, 1])], [1, rng.choice([7, 8])]], [[2, None], [1, rng.choice([7, 8, None])], [0, rng.choice([1, 2])]]])
+                    kw = rng.choice([[], [[0, rng.choice([1, 2, None])]], [[0, rng.choice([1, 2])], [1, rng.choice([7, None, 8, 6])]],
+                                     [[0, rng.choice([None, 1])], [1, rng.choice([7, 8, 6])]], [[2, None], [1, rng.choice([7, 8, None])], [0, rng.choice([1, 2])]]])
                     op = [rng.choice([5, 6, 7, 7]), rng.randrange(NT), kw]
                     if op[0] == 5:
                         op[2] = []
@@ -89,7 +91,7 @@ class CHECK(Check):
     @staticmethod
     def meets(elem, kw):
         for k, v in kw:
-            if v is not None and elem[1][k] != v:
+            if v is not None and (elem[1][k] != v or v == 6):      # 6 = NaN: equal to nothing, itself included
                 return False
         return True
 
@@ -113,8 +115,9 @@ class CHECK(Check):
         T = types_of(case["fam"])
         import hashlib, json
         rich = int(hashlib.sha1(json.dumps(case, sort_keys=True).encode()).hexdigest(), 16) % 2 == 1
-        mv = (lambda v: self.rich(v, False)) if rich else (lambda v: v)
-        fv = (lambda v: self.rich(v, True)) if rich else (lambda v: v)
+        import math
+        mv = (lambda v: math.nan if v == 6 else self.rich(v, False)) if rich else (lambda v: math.nan if v == 6 else v)
+        fv = (lambda v: math.nan if v == 6 else self.rich(v, True)) if rich else (lambda v: math.nan if v == 6 else v)
         elems = [T[c](data=[mv(x) for x in d]) for c, d in case["elems"]]
         ids = {id(e): i for i, e in enumerate(elems)}
         cap = len(elems) + 3
@@ -156,13 +159,14 @@ class CHECK(Check):
         codes = {}
         vc = [codes.setdefault((c, tuple(d)), len(codes)) for c, d in elems]
         isi = [isinst_row(c) for c, d in elems]
-        att = [[[] if v is None else [v] for v in d] for c, d in elems]
+        # NaN (6) is modelled as a value nobody else has: a different code per member, and one more for filters
+        att = [[[] if v is None else [1000 + i if v == 6 else v] for v in d] for i, (c, d) in enumerate(elems)]
         ops = []
         for op in case["ops"]:
             if op[0] <= 4:
                 ops.append(op)
             else:
-                ops.append([op[0], op[1], [[k, [] if v is None else [v]] for k, v in op[2]]])
+                ops.append([op[0], op[1], [[k, [] if v is None else [999 if v == 6 else v]] for k, v in op[2]]])
         return [variant, vc, len(elems) + 3, isi, att, ops]
 
     def model_obs(self, case, res):
